@@ -304,6 +304,7 @@ func (w *world) bodiesFor(method string, sh shape, full bool) []body {
 		valid = descBody(ctJSON, fmt.Sprintf("c%d", n), n%2 == 0, n%3 == 0, n%5 == 0, false, false, false)
 		extra = []body{descBody(ctJSON, "uns", false, false, false, true, false, false),
 			descBody(ctJSON, "uns", false, false, false, false, true, true),
+			descBodyEmptySecrets(ctJSON, "emp", true, false), descBodyEmptySecrets(ctJSON, "emp", false, true), descBodyEmptySecrets(ctJSON, "emp", true, true),
 			descBody(ctText, "wt", false, false, false, false, false, false), badBody(ctJSON)}
 	case "user":
 		perms := []string{"role:present", "list:admin+op", "role:admin", "none", "list:"}[n%5]
